@@ -154,6 +154,10 @@ def _state_inventory(ctx, repo, rid="C04-R5"):
                    msg=f"{cname}.{attr} is a new container that outlives one evaluation (a cache, a look-ahead buffer, a registry): what it holds can make a later evaluation of the same text in the same "
                        "variable state differ; it needs an invalidation argument like the reviewed memos (C04-R2) before this check can pass")
         ctx.ob(rid, f"interpreter:{cname}", f"container-valued attributes of {cname} are the reviewed ones ({len(known)} attributes in the inventory)", not new, construct=f"{cname} state inventory")
+    from ..common import check_no_class_level_containers
+    k = check_no_class_level_containers(ctx, repo, rid, [("interpreter", "KlongInterpreter"), ("interpreter", "KlongContext")],
+                                        "a parse / compiled-expression cache filled by one interpreter answers for another whose variables differ")
+    ctx.floor(rid, "interpreter state classes inspected for class-level containers", k, 2)
     for mod in ("compiler", "interpreter", "types", "dyads", "monads", "adverbs"):
         m = repo.modules.get(mod)
         if m is None:
